@@ -12,6 +12,7 @@ from __future__ import annotations
 
 import asyncio
 import errno
+import select
 import selectors
 import socket
 import weakref
@@ -41,6 +42,8 @@ class _VSelector:
             reason, loop._abort = loop._abort, None
             raise Runaway(reason)
         ev = self._sel.select(0)
+        if ev and loop.lowat_socks:
+            ev = [(k, m) for (k, m) in ev if not loop._below_lowat(k.fd, m)]
         if ev:
             return ev
         if timeout is None:
@@ -79,6 +82,14 @@ class MonSocket(socket.socket):
     def setsockopt(self, *a):
         # TCP keep-alive options are recorded and swallowed (AF_UNIX would reject them: harness artefact)
         self._l.ev("sockopt", self.sid, tuple(int(x) if isinstance(x, int) else repr(x) for x in a))
+        if len(a) >= 3 and a[0] == socket.SOL_SOCKET and a[1] == socket.SO_RCVLOWAT and self.kind == "tcp" and isinstance(a[2], int):
+            # the one option that changes WHEN received bytes are handed over: a TCP socket is not reported readable while
+            # fewer than this many bytes are pending (tcp_stream_is_readable); AF_UNIX poll ignores it, so it is emulated
+            self._rcvlowat = max(1, a[2])
+            if self._rcvlowat > 1:
+                self._l.lowat_socks[self.fileno()] = weakref.ref(self)
+            else:
+                self._l.lowat_socks.pop(self.fileno(), None)
         if self._l.sockopt_faults and len(a) >= 2 and a[0] == socket.IPPROTO_TCP:
             # a network stack that does not know this option (WSL1, gVisor, some containers): injected on request only
             err = self._l.sockopt_faults.pop(0)
@@ -134,6 +145,7 @@ class MonSocket(socket.socket):
 
     def close(self):
         if self.fileno() != -1:
+            self._l.lowat_socks.pop(self.fileno(), None)
             self._l.live.pop(self.sid, None)
             self._l.ev("close", self.sid, self.owner)
         super().close()
@@ -149,6 +161,7 @@ class VLoop(asyncio.SelectorEventLoop):
         self.live: dict = {}            # sid -> owner, sockets currently open
         self.peers: dict = {}           # (host, port) -> peer object with attach(sock, kind)
         self.owners: dict = {}          # (host, port) -> owner label
+        self.lowat_socks: dict = {}     # fd -> weakref(MonSocket) with an emulated SO_RCVLOWAT > 1
         self.sockopt_faults: list = []  # errnos for the next TCP-level setsockopt() calls (0 = succeed)
         self.connect_scripts: dict = {}  # owner -> list of outcomes ('ok'|'refused'|'unreach'|'hang'|('ok', delay))
         self.send_faults: dict = {}     # (owner, k-th send of owner) -> errno
@@ -160,6 +173,29 @@ class VLoop(asyncio.SelectorEventLoop):
         super().__init__(_VSelector(weakref.ref(self)))
         self._clock_resolution = 1e-9
         self.set_exception_handler(self._on_loop_error)
+
+    def _below_lowat(self, fd, mask) -> bool:
+        """True when a read-readiness event must be withheld: an emulated SO_RCVLOWAT is set, fewer bytes than that are
+        pending and the peer has neither closed nor queued an error (those make a TCP socket readable at once)."""
+        ref = self.lowat_socks.get(fd)
+        ms = ref() if ref else None
+        if ms is None or not (mask & selectors.EVENT_READ) or (mask & selectors.EVENT_WRITE):
+            return False
+        try:
+            peek = socket.socket.recv(ms, ms._rcvlowat, socket.MSG_PEEK)
+        except (BlockingIOError, InterruptedError):
+            return False
+        except OSError:
+            return False
+        if not peek or len(peek) >= ms._rcvlowat or ERR_MARK in peek:
+            return False
+        p = select.poll()
+        p.register(fd, select.POLLIN | select.POLLRDHUP)
+        for _fd, m in p.poll(0):
+            if m & (select.POLLRDHUP | select.POLLHUP | select.POLLERR):
+                return False
+        self.ev("lowat_hold", ms.sid, len(peek), ms._rcvlowat)
+        return True
 
     # -- clock / log --------------------------------------------------------------------------------
     def time(self):
